@@ -1365,7 +1365,8 @@ func TestIsolatedWorker(t *testing.T) {
 		return
 	}
 	log.SetOutput(io.Discard) // hostFromForwarded reports unparsable headers through the std logger
-	debug.SetGCPercent(800) // short-lived providers: trade a few MB for less collector time
+	debug.SetGCPercent(400)       // short-lived providers: trade some memory for less collector time ...
+	debug.SetMemoryLimit(1 << 30) // ... but never more than ~1 GiB per worker (16 workers share the machine with other checks)
 	out := os.NewFile(3, "results")
 	w := bufio.NewWriter(out)
 	sc := bufio.NewScanner(os.Stdin)
